@@ -26,7 +26,7 @@ HE = ["form:scalar", "form:triple", "form:listpair", "form:single", "sd:zero", "
 
 def cases(tier, seed):
     out = []
-    n = 32 if tier == "quick" else 64
+    n = 32 if tier == "quick" else 48
     for i in range(n):
         rng = gen.rng_for(seed, "C10", i)
         mode = ["det", "auto", "he"][i % 3]
@@ -38,7 +38,7 @@ def cases(tier, seed):
                              noise_src="private", max_fun_evals=int(rng.choice([42, 50, 60])) if mode == "det" else int(rng.choice([50, 60])))
         out.append({"spec": spec, "positions": "2perphase" if tier == "quick" else "all", "pseed": int(rng.integers(1 << 30))})
     # specified noise + repeated points: the faulty call is a RE-OBSERVATION of an already logged point (merge path)
-    for j in range(4 if tier == "quick" else 16):
+    for j in range(4 if tier == "quick" else 12):
         rng = gen.rng_for(seed, "C10", 5000 + j)
         spec = gen.make_spec(rng, D=int(rng.choice([1, 1, 2])), geom=str(rng.choice(["tight", "lin"])), x0mode="in", land=str(rng.choice(["sphere", "l1", "ramp"])),
                              where=str(rng.choice(["onb", "out"])), mode="he", sigma=0.3, noise_src="private", max_fun_evals=int(rng.choice([80, 110])),
